@@ -48,6 +48,77 @@ def exact_decimal(f):
     return t.rstrip("0").rstrip(".")
 
 
+
+def frac_decimal(fr):
+    """Exact finite decimal expansion of a non-negative Fraction whose denominator is 2^a * 5^b."""
+    d = fr.denominator
+    k = 0
+    while d % 10 == 0:
+        d //= 10
+        k += 1
+    a = 0
+    while d % 2 == 0:
+        d //= 2
+        a += 1
+    b = 0
+    while d % 5 == 0:
+        d //= 5
+        b += 1
+    assert d == 1, "not a finite decimal"
+    k += max(a, b)
+    num = fr.numerator * 10 ** k // fr.denominator
+    assert Fraction(num, 10 ** k) == fr
+    if k == 0:
+        return str(num)
+    digits = str(num).rjust(k + 1, "0")
+    t = digits[:-k] + "." + digits[-k:]
+    return t.rstrip("0").rstrip(".")
+
+
+def midpoint_literal(a, side, r):
+    """(literal text, correctly rounded double) for a decimal just above (side=1), just below (-1) or
+    exactly at (0) the midpoint of the finite double a >= 0 and its successor.  The expected double is
+    computed by exact rational comparison (round to nearest, ties to the even significand), not by
+    the host's strtod.  The text may be positional or scientific and may carry digit separators."""
+    nxt = math.nextafter(a, math.inf)
+    assert math.isfinite(nxt)
+    fa, fn = Fraction(a), Fraction(nxt)
+    mid = (fa + fn) / 2
+    t = frac_decimal(mid)
+    nfrac = len(t.split(".")[1]) if "." in t else 0
+    eps = Fraction(1, 10 ** (nfrac + r.randrange(1, 30)))
+    if side > 0:
+        val, want = mid + eps, nxt
+    elif side < 0:
+        val, want = mid - eps, a
+    else:
+        val = mid
+        ma, _ = math.frexp(a)
+        even_a = (int(ma * 2 ** 53) % 2 == 0) if a >= 2.2250738585072014e-308 else (int(Fraction(a) / Fraction(5e-324)) % 2 == 0)
+        want = a if even_a else nxt
+    # independent confirmation of the expected value by exact distance comparison
+    da, dn = abs(val - fa), abs(val - fn)
+    assert (da < dn and want == a) or (dn < da and want == nxt) or (da == dn and side == 0)
+    t = frac_decimal(val)
+    if r.random() < 0.4:
+        ip, _, fp = t.partition(".")
+        digits = (ip + fp).lstrip("0")
+        exp = len(ip) - 1 if ip.strip("0") else -(len(fp) - len(fp.lstrip("0")) + 1)
+        if ip.strip("0"):
+            digits = ip.lstrip("0") + fp
+            exp = len(ip.lstrip("0")) - 1
+        t = digits[0] + ("." + digits[1:] if len(digits) > 1 else "") + "e" + str(exp)
+        assert Fraction(t.split("e")[0]) * Fraction(10) ** exp == val
+    if r.random() < 0.3:
+        out = []
+        for i, ch in enumerate(t):
+            out.append(ch)
+            if (ch.isdigit() and i + 1 < len(t) and t[i + 1].isdigit() and "e" not in t[:i + 1]
+                    and r.random() < 0.08):
+                out.append("_")
+        t = "".join(out)
+    return t, want
+
 def _jsonnet_num(t):
     """Makes a Python float spelling a Jsonnet number token (no leading '.', no 'inf')."""
     t = t.lower()
